@@ -457,7 +457,7 @@ def run(ck, prog, ctx):
             child_ok = params_of(a0, ac.id) == {3}
             parent_ok = any(a[0] == "call" and a[1].endswith("strip_prefix") for a in a1) and 3 not in params_of(a1, ac.id)
             lits = {const_str_of(fb_, pvn, x) for fb_ in prog.family(ac) for cbi, ct in fb_.calls() if ct.callee.method == "strip_prefix" for x in ct.args[1:]} - {None}
-            if not lits or not any(a[0] == "call" and a[1].endswith("strip_prefix") for a in a1):
+            if not lits or not any(a[0] == "call" and a[1].endswith("strip_prefix") for a in a1 | a0):
                 ck.undecided("ROLE", "obo/is_a", "the parent id of a connection is not recognisably the text after a strip_prefix literal", where=ac.where(t.line))
                 continue
             ck.ob("ROLE", "obo/is_a", child_ok and parent_ok and lits == {"is_a: "}, "a connection is (this term%s, id parsed after %s%s)" % ("" if child_ok else "?", sorted(lits), "" if parent_ok else "?"), where=ac.where(t.line))
